@@ -92,6 +92,12 @@ Definition sp_offer (c : cfg) (st : astate) (nx : N) (v : nat) (idx : option N) 
       end
   end.
 
+(** element [i] replaced by [t] *)
+Definition sp_upd (i : nat) (t : N) (xs : list N) : list N := firstn i xs ++ t :: skipn (S i) xs.
+
+(** identities of the [n] values created next *)
+Definition next_ids (c : cfg) (nx : N) (n : nat) : list N := map (fun k => tok c (nx + N.of_nat k)) (seq 0 n).
+
 (** element [i] of vector [v] (contents [a]) leaves through a removal handle; [sk] = what is done
     with the handle *)
 Definition sp_take_elem (c : cfg) (st : astate) (nx : N) (v : nat) (a : avec) (k : tkind) (i : nat) (sk : sink)
@@ -117,6 +123,33 @@ Definition sp_take_elem (c : cfg) (st : astate) (nx : N) (v : nat) (a : avec) (k
   | _ => None
   end.
 
+(** ... and the handle may first be used: [KMut sk]: a new value is written through the handle (the old one
+    is handed back and destroyed), [KLazyDown n sk]: n times a lazy clone of it is downcast - a new value each
+    time, destroyed at once - before the handle goes to [sk] *)
+Fixpoint sp_sink (c : cfg) (st : astate) (nx : N) (v : nat) (a : avec) (k : tkind) (i : nat) (sk : sink)
+  : option sres :=
+  let t := nth i (a_xs a) 0 in
+  match sk with
+  | KMut sk' =>
+      let a' := with_xs a (sp_upd i (tok c nx) (a_xs a)) in
+      match sp_sink c (set_a v (Some a') st) (nx + 1) v a' k i sk' with
+      | Some r => Some {| s_out := s_out r; s_pk := s_pk r;
+                          s_ret := if s_out r =? 0 then t :: s_ret r else s_ret r;
+                          s_evs := drop_ev c t ++ s_evs r; s_st := s_st r; s_nx := s_nx r |}
+      | None => None
+      end
+  | KLazyDown n sk' =>
+      let ids := next_ids c nx (N.to_nat n) in
+      match sp_sink c st (nx + n) v a k i sk' with
+      | Some r => Some {| s_out := s_out r; s_pk := s_pk r;
+                          s_ret := if s_out r =? 0 then ids ++ s_ret r else s_ret r;
+                          s_evs := flat_map (fun id => EClone t id :: drop_ev c id) ids ++ s_evs r;
+                          s_st := s_st r; s_nx := s_nx r |}
+      | None => None
+      end
+  | _ => sp_take_elem c st nx v a k i sk
+  end.
+
 (** pop / remove / swap_remove and what is done with the handle *)
 Definition sp_take (c : cfg) (st : astate) (nx : N) (v : nat) (k : tkind) (idx : N) (sk : sink)
   : option sres :=
@@ -131,12 +164,9 @@ Definition sp_take (c : cfg) (st : astate) (nx : N) (v : nat) (k : tkind) (idx :
                else inr (panic_res PIndex [] st nx)
         end in
       match sel with
-      | inr r => match sk with
-                 | KDrop | KDown | KForget | KPush _ | KIns _ _ => Some r
-                 | _ => None
-                 end
+      | inr r => Some r      (* no element: nothing is done with a handle *)
       | inl None => None
-      | inl (Some i) => sp_take_elem c st nx v a k i sk
+      | inl (Some i) => sp_sink c st nx v a k i sk
       end
   end.
 
@@ -235,9 +265,6 @@ Definition sp_drain (c : cfg) (st : astate) (nx : N) (v : nat) (sb eb : bound) (
   end.
 
 (** ** clone / clone_empty / clone_empty_in *)
-
-(** identities of the [n] values created next *)
-Definition next_ids (c : cfg) (nx : N) (n : nat) : list N := map (fun k => tok c (nx + N.of_nat k)) (seq 0 n).
 
 (** [v.clone()] into slot [dst] (another slot): the i-th element of the result is a clone of the source's
     i-th element - a NEW value, one Clone call per element in index order; same backend kind; the source
@@ -412,9 +439,6 @@ Definition sp_offer_wrong (c : cfg) (st : astate) (nx : N) (v : nat) (k : N) : o
   | Some _ => if k =? c_ty c then None else Some (panic_res PType (drop_ev c (tok c nx)) st (nx + 1))
   | None => None
   end.
-
-(** element [i] replaced by [t] *)
-Definition sp_upd (i : nat) (t : N) (xs : list N) : list N := firstn i xs ++ t :: skipn (S i) xs.
 
 (** writing through an element handle: [*handle = new value]; the old value is returned (and destroyed by
     the caller), nothing else changes *)
